@@ -233,19 +233,36 @@ def second_compilation_case(ctx, preds, classify):
 PLAIN_LEFT_OPS = {"OSub": "-", "ODiv": "/", "OMod": "%", "OPow": "**", "OLShift": "<<", "ORShift": ">>"}
 
 
-def plain_left_operand_case(ctx, preds, classify):
-    """a plain Python number written on the LEFT of a non-commutative operator (100 - x): the library may reject it;
-    when it accepts, the MIR must be the image of Integer(100) - x, operands in written order"""
+def may_reject_family(ctx, preds, classify, progs, label, what, name):
+    """programs given as a Python text next to the surface term saying what the text means; the library may reject
+    the text, but when it accepts, every predicate must hold of the MIR against the surface term"""
+    texts = [p["text"] for p in progs]
+    results = progrun.run_impl([None] * len(texts), texts=texts)
+    acc = [i for i, r in enumerate(results) if "ok" in r]
+    nbad = 0
+    if acc:
+        exprs = list(preds.values())
+        outp, errors = progrun.eval_over_cases(ctx, name, IMPORTS, [progs[i] for i in acc], [results[i] for i in acc], exprs)
+        if errors:
+            raise RuntimeError(f"cases {name} failed: " + errors[0][1])
+        for pname, e in preds.items():
+            for j in outp[e]:
+                i = acc[j]
+                nbad += 1
+                key, wh = classify(pname, progs[i], results[i])
+                vlib.report_failure(ctx, key + ":" + label, wh + " — " + what, replay_payload(progs[i], results[i]))
+    ctx.note(f"validate: {len(texts)} programs ({what}): {len(acc)} accepted by the implementation, {nbad} predicate failures among them")
+    ctx.cov[name + "_programs"] = len(texts)
+
+
+def plain_left_programs():
     import targeted
-    progs, texts = [], []
+    progs = []
     for op, sym in PLAIN_LEFT_OPS.items():
         for mode in ("Secret", "Public"):
             for base in ("Int", "UInt"):
-                if op in ("OLShift", "ORShift") and base == "Int" and mode == "Secret":
-                    pass
                 t = targeted.S(mode, base)
-                lit_base = base
-                pr = targeted.prog([targeted.inp("x", "x", t), {"k": "lit", "x": "l", "b": lit_base, "v": 100},
+                pr = targeted.prog([targeted.inp("x", "x", t), {"k": "lit", "x": "l", "b": base, "v": 100},
                                     {"k": "bin", "x": "r", "op": op, "a": "l", "b": "x"}], [("o", "P0", "r")], ["plain-left-operand", op])
                 text = surface.to_python(pr)
                 lit_line = [l for l in text.split("\n") if l.strip().startswith("l = ")][0]
@@ -253,25 +270,84 @@ def plain_left_operand_case(ctx, preds, classify):
                 assert f"r = 100 {sym} x" in text
                 pr["text"] = text
                 progs.append(pr)
-                texts.append(text)
-    results = progrun.run_impl([None] * len(texts), texts=texts)
-    acc = [i for i, r in enumerate(results) if "ok" in r]
-    nbad = 0
-    if acc:
-        exprs = list(preds.values())
-        outp, errors = progrun.eval_over_cases(ctx, "plain_left", IMPORTS, [progs[i] for i in acc], [results[i] for i in acc], exprs)
-        if errors:
-            raise RuntimeError("cases plain_left failed: " + errors[0][1])
-        for name, e in preds.items():
-            for j in outp[e]:
-                i = acc[j]
-                nbad += 1
-                key, what = classify(name, progs[i], results[i])
-                vlib.report_failure(ctx, key + ":plain-number-on-the-left",
-                                    what + " — for a plain Python number on the left of a non-commutative operator",
-                                    replay_payload(progs[i], results[i]))
-    ctx.note(f"validate: {len(texts)} programs with a plain number on the left of - / % ** << >>: {len(acc)} accepted by the implementation, {nbad} of them unfaithful")
-    ctx.cov["plain_left_operand_programs"] = len(texts)
+    return progs
+
+
+def plain_left_operand_case(ctx, preds, classify):
+    """a plain Python number written on the LEFT of a non-commutative operator (100 - x): the library may reject it;
+    when it accepts, the MIR must be the image of Integer(100) - x, operands in written order"""
+    may_reject_family(ctx, preds, classify, plain_left_programs(), "plain-number-on-the-left",
+                      "a plain Python number on the left of - / % ** << >>", "plain_left")
+
+
+def text_variant_programs():
+    """the same program written in unusual but legal ways: the outputs handed over as a generator / iterator / tuple /
+    by a generator function; literals built from Python booleans and conditions (Integer(True) is Integer(1))"""
+    import targeted
+    SI, PI = targeted.SI, targeted.S("Public", "Int")
+    progs = []
+    base = [targeted.inp("a", "a", SI), targeted.inp("b", "b", PI, "P1"), {"k": "bin", "x": "s", "op": "OSub", "a": "a", "b": "b"},
+            {"k": "bin", "x": "m", "op": "OMul", "a": "s", "b": "a"}]
+    outs = [("first", "P0", "s"), ("second", "P1", "m"), ("third", "P0", "a")]
+    for tag, wrap in (("outputs-generator-expression", "(o for o in [{L}])"), ("outputs-iterator", "iter([{L}])"),
+                      ("outputs-tuple", "({L},)"), ("outputs-map-object", "map(lambda o: o, [{L}])"),
+                      ("outputs-reversed-twice", "reversed(list(reversed([{L}])))")):
+        pr = targeted.prog(list(base), list(outs), ["text-variant", tag])
+        text = surface.to_python(pr)
+        ret = [l for l in text.split("\n") if l.strip().startswith("return [")][0]
+        inner = ret.strip()[len("return ["):-1]
+        pr["text"] = text.replace(ret, "    return " + wrap.replace("{L}", inner))
+        progs.append(pr)
+    # a generator function as nada_main
+    pr = targeted.prog(list(base), list(outs), ["text-variant", "outputs-yielded"])
+    text = surface.to_python(pr)
+    ret = [l for l in text.split("\n") if l.strip().startswith("return [")][0]
+    inner = ret.strip()[len("return ["):-1]
+    items = []
+    depth, cur = 0, ""
+    for ch in inner:
+        if ch == "," and depth == 0:
+            items.append(cur.strip()); cur = ""
+            continue
+        depth += ch in "([{"
+        depth -= ch in ")]}"
+        cur += ch
+    items.append(cur.strip())
+    pr["text"] = text.replace(ret, "\n".join("    yield " + it for it in items))
+    progs.append(pr)
+    # literals written through Python booleans / conditions
+    for tag, cls, expr, b in (("literal-from-True", "Integer", "True", "Int"), ("literal-from-comparison", "Integer", "3 > 2", "Int"),
+                              ("literal-from-equality", "UnsignedInteger", "len([1, 2]) == 2", "UInt"), ("literal-from-int-subclass", "Integer", "bool(5)", "Int")):
+        pr = targeted.prog([targeted.inp("a", "a", SI if b == "Int" else targeted.S("Secret", "UInt")), {"k": "lit", "x": "one", "b": b, "v": 1},
+                            {"k": "lit", "x": "uno", "b": b, "v": 1},
+                            {"k": "bin", "x": "r", "op": "OAdd", "a": "a", "b": "one"}, {"k": "bin", "x": "q", "op": "OMul", "a": "r", "b": "uno"}],
+                           [("o", "P0", "q"), ("lit", "P0", "one")], ["text-variant", tag])
+        text = surface.to_python(pr)
+        line = [l for l in text.split("\n") if l.strip().startswith("one = ")][0]
+        pr["text"] = text.replace(line, f"    one = {cls}({expr})")
+        progs.append(pr)
+    return progs
+
+
+def plain_reduce_seed_programs():
+    """xs.reduce(add, 0): a plain Python number as the initial value (rejected by the unchanged library); if it is ever
+    accepted, the literal it becomes must have the accumulator's type"""
+    import targeted
+    progs = []
+    for mode, base in (("Secret", "UInt"), ("Public", "UInt"), ("Secret", "Int")):
+        t = targeted.S(mode, base)
+        body = [{"k": "bin", "x": "s", "op": "OAdd", "a": "acc", "b": "e"}]
+        pr = targeted.prog([targeted.inp("xs", "xs", ("arr", t, 3)), {"k": "lit", "x": "z", "b": base, "v": 0},
+                            {"k": "def", "f": "add", "params": [("acc", t), ("e", t)], "ret": t, "body": body, "res": "s", "form": "decorator"},
+                            {"k": "reduce", "x": "r", "a": "xs", "f": "add", "init": "z"}], [("o", "P0", "r")], ["plain-number-seed"])
+        text = surface.to_python(pr)
+        lit_line = [l for l in text.split("\n") if l.strip().startswith("z = ")][0]
+        text = text.replace(lit_line + "\n", "")
+        assert "reduce(add, z)" in text, text
+        text = text.replace("reduce(add, z)", "reduce(add, 0)")
+        pr["text"] = text
+        progs.append(pr)
+    return progs
 
 
 def after_failed_compilation_case(ctx, preds, classify):
@@ -323,7 +399,7 @@ def after_failed_compilation_case(ctx, preds, classify):
     ctx.cov["after_failed_compilation_case"] = True
 
 
-def generic_run(ctx, preds, classify, n_quick=300, n_thorough=6000, level="proof", second_compilation=False, after_failed=False, plain_left=False):
+def generic_run(ctx, preds, classify, n_quick=300, n_thorough=6000, level="proof", second_compilation=False, after_failed=False, plain_left=False, text_variants=False):
     """shared body of the program-level checks: extract, prove, validate preds on implementation MIRs, tie the model"""
     import targeted
     ok_x = vlib.step_extract(ctx)
@@ -341,6 +417,9 @@ def generic_run(ctx, preds, classify, n_quick=300, n_thorough=6000, level="proof
         second_compilation_case(ctx, preds, classify)
     if plain_left:
         plain_left_operand_case(ctx, preds, classify)
+    if text_variants:
+        may_reject_family(ctx, {k: v for k, v in preds.items() if "must" not in k}, classify, text_variant_programs(), "unusual-but-legal-spelling",
+                          "outputs handed over as a generator / iterator / tuple, literals built from Python booleans", "text_variants")
     if after_failed:
         after_failed_compilation_case(ctx, {k: v for k, v in preds.items() if "must" not in k}, classify)
     if ok_x:
